@@ -1,15 +1,15 @@
 (** C08 -- the invariant holds after every sequence of edits (induction over the sequence). *)
 From Coq Require Import Ascii String List Bool PArith NArith FMapPositive Permutation Lia.
 From PTBase Require Import Exn PyStr.
-From P Require Import Assoc GridEdit GridLemmas Inv InvRock InvBlock InvConn InvRename InvReorder.
+From P Require Import Assoc GridEdit GridLemmas Inv InvRock InvBlock InvConn InvRename InvReorder InvMinc InvAdd InvEmbed.
 Import ListNotations.
 Open Scope list_scope.
 
 (** the weakest precondition of each edit that the faithful model needs.  [True] for add_rocktype,
-    clean_rocktypes, delete_block, demote_block, add_connection, delete_connection. *)
+    clean_rocktypes, delete_block, demote_block, add_connection, delete_connection and minc. *)
 Definition pre (g : grid) (o : op) : Prop :=
   match o with
-  | AddRock _ | CleanRocks | DelBlock _ | Demote _ | AddConn _ _ | DelConn _ _ => True
+  | AddRock _ | CleanRocks | DelBlock _ | Demote _ | AddConn _ _ | DelConn _ _ | Minc _ _ _ _ _ => True
   | DelRock n => rock_not_used g n                 (* no block uses a rock type of that name *)
   | RenRock a _ => no_stale_rock g a               (* blocks using the name hold the registered object *)
   | AddBlock n _ => replaced_unconnected g n       (* a block replaced under its name has no connections *)
@@ -17,6 +17,9 @@ Definition pre (g : grid) (o : op) : Prop :=
   | Reorder bns cns =>                             (* the call names every block / connection exactly once *)
       forall g', reorder g bns cns = Ok g' ->
                  Permutation (blist g) (blist g') /\ Permutation (clist g) (clist g')
+  | AddGrid h _ =>                                 (* the other grid is consistent; a common block name means a common block *)
+      Inv (with_view g h) /\ same_name_same_block g (view_of g) h
+  | Embed h _ _ _ => Inv (with_view g h)           (* the other grid is consistent *)
   end.
 
 Theorem step_inv g o g' : Inv g -> pre g o -> step g o = Ok g' -> Inv g'.
@@ -33,6 +36,17 @@ Proof.
   - eapply delete_connection_inv; eauto.
   - eapply rename_blocks_inv; eauto.
   - destruct (P g' H) as [Pb Pc]. eapply reorder_inv; eauto.
+  - eapply minc_inv; eauto.
+  - destruct P as [Ih S]. destruct other_first.
+    + apply (grid_add_inv g h (view_of g) g'); [exact Ih|rewrite with_view_of; exact I|apply same_name_sym; exact S|exact H].
+    + apply (grid_add_inv g (view_of g) h g'); [rewrite with_view_of; exact I|exact Ih|exact S|exact H].
+  - pose proof (inv_new_conn g i0 i1 I) as I0.
+    destruct (embed (new_conn g i0 i1) (view_of (new_conn g i0 i1)) h (next g) fits) as [[r|]|] eqn:E; cbn [bind] in H; [| |discriminate];
+      inversion H; subst g'; [|exact I0].
+    apply (embed_inv _ _ _ _ _ _ (eq_ind_r Inv I0 (with_view_of _)) (inv_new_conn (with_view g h) i0 i1 P)) in E; [exact E| | |].
+    + apply inv_next_notin_c. exact I.
+    + intro X. apply (i_cfresh _ P) in X. cbn in X. lia.
+    + gs. lia.
 Qed.
 
 (** every edit of the sequence meets its precondition in the state it is applied to *)
